@@ -301,6 +301,20 @@ def runSched (j : Json) : Json :=
       let secs := σ.led.m.toList.foldl (fun (acc : Rat) (ks : Key × Slot) =>
         if ks.1.1 == r then acc + (usageOf ks.2.usage t).getD 0 else acc) 0
       secs / 3600 * (e.resD r).eff == (e.taskD t).effort)))
+  -- C08.no_idle_final_with_alternative: forward, no own start, both candidates leaves: no idle slot on one of the two
+  let altIdleTasks := altTasks.filter (fun t =>
+    let d := e.taskD t
+    (σ.tst t).forward && !d.startProvided && (d.alloc ++ d.alt).all (fun r => (e.resD r).leaf))
+  let altIdleFail := altIdleTasks.filter (fun t =>
+    !(((e.taskD t).alloc ++ (e.taskD t).alt).any (fun r =>
+      let booked := (σ.led.m.toList.filter (fun (ks : Key × Slot) => ks.1.1 == r && (usageOf ks.2.usage t).isSome)).map (fun ks => ks.1.2)
+      let b := boundSlot e σ t
+      match booked.foldl (fun (m : Option Int) i => match m with | none => some i | some x => some (max x i)) none with
+      | none => false
+      | some L =>
+        (List.range (L - b + 1).toNat).all (fun k =>
+          let i := b + (k : Int)
+          !(e.onShift r i && !e.leaveMark r i) || !(σ.led.get r i).usage.isEmpty || exhaustedB e σ t r i))))
   -- C06.framed_with_alternative: framed on one of the two candidates
   let altFrameFail := altTasks.filter (fun t =>
     !(((e.taskD t).alloc ++ (e.taskD t).alt).any (fun r => framedB e σ t r)))
@@ -356,6 +370,7 @@ def runSched (j : Json) : Json :=
                          ("one_set_fail", Json.num (JsonNumber.fromNat oneSetFail.length)),
                          ("alt_tasks", Json.num (JsonNumber.fromNat altTasks.length)), ("alt_effort_fail", Json.num (JsonNumber.fromNat altFail.length)),
                          ("alt_framed_fail", Json.num (JsonNumber.fromNat altFrameFail.length)),
+                         ("alt_idle_tasks", Json.num (JsonNumber.fromNat altIdleTasks.length)), ("alt_idle_fail", Json.num (JsonNumber.fromNat altIdleFail.length)),
                          ("teams_any", Json.num (JsonNumber.fromNat anyTeams.length)), ("team_same_fail", Json.num (JsonNumber.fromNat sameFail.length)),
                          ("fwd_scheduled", Json.num (JsonNumber.fromNat fwds.length)), ("dep_edges", Json.num (JsonNumber.fromNat depPairs.length)),
                          ("dep_fail", Json.num (JsonNumber.fromNat depFail.length)),
